@@ -531,6 +531,50 @@ func (a *Atom) eval(env *EvalEnv) (float64, error) {
 			return math.Min(args[0], args[1]), nil
 		case "divzero":
 			return math.Inf(1), nil
+		case "math_Mod":
+			return math.Mod(args[0], args[1]), nil
+		case "math_Remainder":
+			return math.Remainder(args[0], args[1]), nil
+		case "math_Floor":
+			return math.Floor(args[0]), nil
+		case "math_Ceil":
+			return math.Ceil(args[0]), nil
+		case "math_Trunc":
+			return math.Trunc(args[0]), nil
+		case "math_Round":
+			return math.Round(args[0]), nil
+		case "math_Log2":
+			return math.Log2(args[0]), nil
+		case "math_Log10":
+			return math.Log10(args[0]), nil
+		case "math_Log1p":
+			return math.Log1p(args[0]), nil
+		case "math_Expm1":
+			return math.Expm1(args[0]), nil
+		case "math_Cbrt":
+			return math.Cbrt(args[0]), nil
+		case "math_Atan":
+			return math.Atan(args[0]), nil
+		case "math_Asin":
+			return math.Asin(args[0]), nil
+		case "math_Acos":
+			return math.Acos(args[0]), nil
+		case "math_Hypot":
+			return math.Hypot(args[0], args[1]), nil
+		case "math_Atan2":
+			return math.Atan2(args[0], args[1]), nil
+		case "math_Exp2":
+			return math.Exp2(args[0]), nil
+		case "math_Copysign":
+			return math.Copysign(args[0], args[1]), nil
+		case "math_Dim":
+			return math.Dim(args[0], args[1]), nil
+		case "math_Erf":
+			return math.Erf(args[0]), nil
+		case "math_Gamma":
+			return math.Gamma(args[0]), nil
+		case "isnan", "isinf":
+			return 0, nil
 		}
 		return 0, fmt.Errorf("unknown function %s", a.Name)
 	case APow:
